@@ -399,8 +399,9 @@ pub fn run(ctx: &Ctx, rep: &mut Report) {
         rep.sample(|| J::obj().set("file_bytes", file0.len()).set("junk", junk).set("blocks", format!("{:?}", block_summary(&file0[junk..]))).set("history", format!("{history:?}")).set("via_path", via_path));
     }
     // (c) the 24-bit padding limit (one large file per shard 0)
-    if ctx.shard == 0 {
-        for shrink in [1usize, 10, 200] {
+    // the padding after the edit ends up 2, 1, 0 bytes below the limit, exactly at it, and beyond
+    if ctx.shard < 8 {
+        for shrink in [[1usize, 98], [99, 100], [101, 102], [200, 100], [100, 99], [10, 100], [100, 101], [98, 100]][ctx.shard as usize] {
             let mut r2 = Rng::new(ctx.seed ^ 0xBEEF);
             let mut c = super::c03::random_case(&mut r2, false);
             c.params.md5 = flacref::sgen::Md5Mode::Correct;
